@@ -199,9 +199,15 @@ class JokerPrior:
 
             if not is_fcm:
                 dist_params = p.owner.op.dist_params(p.owner)
+                # a random-number-generator input anywhere upstream also marks a
+                # random parent (pymc's symbolic random variables, e.g.
+                # pm.Truncated, keep their RandomVariable in an inner graph)
                 if any(
-                    v.owner is not None
-                    and isinstance(v.owner.op, pt.random.op.RandomVariable)
+                    isinstance(v.type, pt.random.type.RandomType)
+                    or (
+                        v.owner is not None
+                        and isinstance(v.owner.op, pt.random.op.RandomVariable)
+                    )
                     for v in ancestors(dist_params)
                 ):
                     msg = (
